@@ -133,6 +133,27 @@ CLAIMED = {
             "discharged contracts, not a solver obligation; real parallel execution is represented by environment steps at "
             "storage-action granularity; exhaustion of 50 retries is covered only as 'raises and nothing reflected'.",
             "DESIGN.md 4/C01"),
+    "C19": ("Proof of the action contracts of both lock implementations: FileLock._try_acquire_once/acquire return True only after a "
+            "successful non-blocking flock on a kept-open descriptor of the persistent lock file, a failed attempt leaks nothing, "
+            "TimeoutError fires only at/after the deadline with nothing held and every waiting round rechecks the deadline (loop "
+            "invariant), release unlocks+closes and never unlinks in flock mode, is_held reflects the held descriptor; for the S3 "
+            "lock, create only by If-None-Match, takeover only after a HEAD showing age > lease and only by If-Match on that HEAD's "
+            "etag, renewal by If-Match on the own etag with loss detection, is_held True only for own content read in that very "
+            "call (under an environment that may change the lock object at every request boundary). REL-S3 (release deletes only "
+            "its own lock) is refuted and carried as a known finding.",
+            "Trusted: T-flock (kernel), T-s3 conditional PUT, A-clock (S3 LastModified vs local clock), lemma EXCL as a meta-argument "
+            "over the action contracts; real multi-process stress is outside this technique; the polling provider (no conditional "
+            "writes) is excluded by the property itself.",
+            "DESIGN.md 4/C19"),
+    "C16": ("Proof over the trace of T-os calls issued by the real code: LocalStorageBackend.write_file writes the whole content to a "
+            "temp file in the target's directory, fsyncs it after the last write and before os.replace, fsyncs the directory after, and "
+            "an exception implies the rename did not happen; DataFileWriter.open/close do the same for parquet files (fsync of the "
+            "finished temp file before the rename, directory fsync after); MetadataManager.commit writes the metadata file before the "
+            "pointer and _commit_file_ops commits the snapshot after every manifest and the manifest list were written.",
+            "Trusted: T-os page-cache/durable reading of write/fsync/replace, A-write, a swallowed directory-fsync OSError = "
+            "'unsupported', T-arrow (ParquetWriter.close finishes the file), S3 durability = T-s3; durability of caller-provided files "
+            "(append_files) is outside the library. The power-loss invariant is argued from the proved ordering, not model-checked.",
+            "DESIGN.md 4/C16"),
 }
 
 NA_REASON = {
